@@ -11,8 +11,7 @@ LayoutPair.lean).  Model: Model/Layout.lean ⇄
     split_off_ppf1).
 Glyph ids are `Nat`s; every theorem about real tables assumes them `< 65536` (they are `u16`).
 -/
-import FontVerif.Lemmas.LayoutPair
-import FontVerif.Lemmas.LayoutClassDef
+import FontVerif.Lemmas.LayoutSplit2
 set_option linter.unusedVariables false
 namespace FontVerif.C16
 open FontVerif FontVerif.Layout
@@ -146,10 +145,11 @@ theorem classdef_build_is_fmt1_or_fmt2 (items : List (Nat × Nat)) :
 /-! ## `split_coverage` -/
 
 /-- **split_coverage_spec.**  For a well-formed coverage table in EITHER format and any
-`start < end ≤ glyph count`, `split_coverage(cov, start, end)` does not panic and the new table
+`start ≤ end ≤ glyph count`, `split_coverage(cov, start, end)` does not panic and the new table
 covers exactly the glyphs whose coverage index lies in `[start, end)`, re-indexed from 0:
-`get' g = (get g).filter (start ≤ · < end) − start` for every glyph `g`. -/
-theorem split_coverage_spec (c : Coverage) (h : c.WF) (s e : Nat) (hse : s < e)
+`get' g = (get g).filter (start ≤ · < end) − start` for every glyph `g`.
+(The empty range `start = end` relies on /repo fix 5c740c8; before it format 2 panicked.) -/
+theorem split_coverage_spec (c : Coverage) (h : c.WF) (s e : Nat) (hse : s ≤ e)
     (he : e ≤ c.glyphs.length) :
     ∃ c', splitCoverage c s e = some c' ∧ c'.WF ∧
       ∀ g, c'.get g = ((c.get g).filter (fun i => decide (s ≤ i ∧ i < e))).map (· - s) :=
@@ -157,7 +157,7 @@ theorem split_coverage_spec (c : Coverage) (h : c.WF) (s e : Nat) (hse : s < e)
 
 /-- the same for the tables the builder makes -/
 theorem split_coverage_of_built (gs : List Nat) (hb : ∀ g ∈ gs, g < 65536) (s e : Nat)
-    (hse : s < e) (he : e ≤ (sortDedup gs).length) :
+    (hse : s ≤ e) (he : e ≤ (sortDedup gs).length) :
     ∃ c', splitCoverage (buildCoverage gs) s e = some c' ∧
       ∀ g, c'.get g =
         ((indexIn g (sortDedup gs)).filter (fun i => decide (s ≤ i ∧ i < e))).map (· - s) := by
@@ -167,44 +167,30 @@ theorem split_coverage_of_built (gs : List Nat) (hb : ∀ g ∈ gs, g < 65536) (
   refine ⟨c', a, fun g => ?_⟩
   rw [d g, coverage_get gs hb g]
 
-/-- format 1 also tolerates the empty range `start = end` (format 2 does not: `end - 1` and
-`min(..) - max(..)` underflow — see `split_coverage_fmt2_empty_range_traps`) -/
-theorem split_coverage_fmt1_spec (xs : List Nat) (hs : xs.Pairwise (· < ·))
-    (hb : ∀ x ∈ xs, x < 65536) (s e : Nat) (hse : s ≤ e) (he : e ≤ xs.length) :
-    ∃ c', splitCoverage (.fmt1 xs) s e = some c' ∧
-      ∀ g, c'.get g =
-        (((Coverage.fmt1 xs).get g).filter (fun i => decide (s ≤ i ∧ i < e))).map (· - s) :=
-  have ⟨a, _, d⟩ := splitCoverage_fmt1 hs hb hse he
-  ⟨_, a, d⟩
-
-/-- documented sharp edge (reachable only through a split point 0, i.e. a first pair set that by
-itself exceeds 64 KiB): `split_coverage(format 2, 0, 0)` panics on `end - 1`. -/
-theorem split_coverage_fmt2_empty_range_traps (r : RangeRec) (rs : List RangeRec) :
-    splitCoverage (.fmt2 (r :: rs)) 0 0 = none := by
-  simp [splitCoverage]
-
 /-! ## PairPos format 1 splitting -/
 
 /-- **ppf1_split_preserves.**  Take ANY PairPos format 1 subtable with a well-formed coverage
-table (either format) and one pair set per covered glyph, and ANY strictly increasing list of split
-points `0 < p₁ < … < pₖ = pair-set count` (the size heuristic is a parameter).  Then the split loop
+table (either format) and one pair set per covered glyph, and ANY non-decreasing list of split
+points `0 ≤ p₁ ≤ … ≤ pₖ = pair-set count` (the size heuristic is a parameter; a point 0 or a
+repeated point yields an empty subtable).  Then the split loop
 of `split_pair_pos_format_1` does not panic, produces `k` subtables, and for EVERY glyph pair the
 first-match lookup over the new subtables returns exactly what the unsplit subtable returned — in
 particular nothing for pairs that had no rule. -/
 theorem ppf1_split_preserves {V : Type} (t : PairPos1 V) (hwf : t.cov.WF)
     (hlen : t.pairSets.length = t.cov.glyphs.length) (pts : List Nat)
-    (hinc : (0 :: pts).Pairwise (· < ·)) (hlast : pts.getLast? = some t.pairSets.length) :
+    (hinc : pts.Pairwise (· ≤ ·)) (hlast : pts.getLast? = some t.pairSets.length) :
     ∃ ts, splitPpf1Go t 0 pts = some ts ∧ ts.length = pts.length ∧
       ∀ g1 g2, firstMatch ts g1 g2 = t.lookup g1 g2 := by
   have hl := lastOr_of_getLast? pts 0 _ hlast
-  obtain ⟨ts, a, b, c⟩ := splitPpf1Go_lookup t hwf pts 0 hinc (by rw [hl, hlen]; exact Nat.le_refl _)
+  obtain ⟨ts, a, b, c⟩ := splitPpf1Go_lookup t hwf pts 0
+    (List.pairwise_cons.mpr ⟨fun _ _ => Nat.zero_le _, hinc⟩) (by rw [hl, hlen]; exact Nat.le_refl _)
   refine ⟨ts, a, b, fun g1 g2 => ?_⟩
   rw [c g1 g2, hl, hlen, lookupIn_full t hwf]
 
 /-- pairs without a rule stay without a value after splitting -/
 theorem ppf1_no_rule_no_value {V : Type} (t : PairPos1 V) (hwf : t.cov.WF)
     (hlen : t.pairSets.length = t.cov.glyphs.length) (pts : List Nat)
-    (hinc : (0 :: pts).Pairwise (· < ·)) (hlast : pts.getLast? = some t.pairSets.length)
+    (hinc : pts.Pairwise (· ≤ ·)) (hlast : pts.getLast? = some t.pairSets.length)
     (ts : List (PairPos1 V)) (hts : splitPpf1Go t 0 pts = some ts) (g1 g2 : Nat)
     (hno : t.lookup g1 g2 = none) : firstMatch ts g1 g2 = none := by
   obtain ⟨ts', a, _, c⟩ := ppf1_split_preserves t hwf hlen pts hinc hlast
@@ -262,19 +248,77 @@ theorem ppf1_points_pos (cs : Nat) (first : Nat × Nat) (rest : List (Nat × Nat
     · simp at hp; omega
 
 /-- **ppf1_split_heuristic_preserves.**  The two together: with the split points the real
-heuristic computes (for any object sizes), provided the first pair set alone fits a subtable,
-splitting a well-formed PairPos format 1 subtable preserves every pair lookup. -/
+heuristic computes, for ANY object sizes (also when the first pair set alone exceeds 64 KiB and the
+heuristic emits the split point 0), splitting a well-formed PairPos format 1 subtable does not
+panic and preserves every pair lookup. -/
 theorem ppf1_split_heuristic_preserves {V : Type} (t : PairPos1 V) (hwf : t.cov.WF)
-    (hlen : t.pairSets.length = t.cov.glyphs.length) (cs : Nat) (first : Nat × Nat)
-    (rest : List (Nat × Nat)) (hsz : (first :: rest).length = t.pairSets.length)
-    (hfit : 10 + (first.2 + 2) + min cs 6 ≤ 65535) (pts : List Nat)
-    (h : ppf1SplitPoints cs (first :: rest) = some pts) :
+    (hlen : t.pairSets.length = t.cov.glyphs.length) (cs : Nat) (sizes : List (Nat × Nat))
+    (hsz : sizes.length = t.pairSets.length) (pts : List Nat)
+    (h : ppf1SplitPoints cs sizes = some pts) :
     ∃ ts, splitPpf1Go t 0 pts = some ts ∧ ∀ g1 g2, firstMatch ts g1 g2 = t.lookup g1 g2 := by
   have ⟨pw, hl, _⟩ := ppf1_points_valid cs _ pts h
-  have hpos := ppf1_points_pos cs first rest pts hfit h
   obtain ⟨ts, a, _, c⟩ := ppf1_split_preserves t hwf hlen pts
-    (List.pairwise_cons.mpr ⟨hpos, pw⟩) (by rw [hl, hsz])
+    (pw.imp (fun h => Nat.le_of_lt h)) (by rw [hl, hsz])
   exact ⟨ts, a, c⟩
+
+/-! ## PairPos format 2 splitting -/
+
+/-- **ppf2_split_preserves.**  Take ANY PairPos format 2 subtable with a well-formed coverage table
+(any two class definitions, any class1 × class2 matrix — also one whose class definition 1 names
+classes beyond the matrix) and ANY non-decreasing list of split points ending with the class-1
+count.  `split_off_ppf2` rebuilds, for each class range, a coverage table (through
+`CoverageTableBuilder`) and a class definition 1 (through `ClassDef: FromIterator`, classes shifted
+down, the first class of each range becoming the implicit class 0).  For EVERY glyph pair the
+first-match lookup over the new subtables equals the lookup in the unsplit subtable — the same
+matrix cell, or no match. -/
+theorem ppf2_split_preserves {V : Type} (t : PairPos2 V) (hwf : t.cov.WF) (pts : List Nat)
+    (hinc : pts.Pairwise (· ≤ ·)) (hlast : pts.getLast? = some t.rows.length) :
+    ∃ ts, splitPpf2Go t 0 pts = some ts ∧ ts.length = pts.length ∧
+      ∀ g1 g2, firstMatch2 ts g1 g2 = t.lookup g1 g2 := by
+  have hl := lastOr_of_getLast? pts 0 _ hlast
+  have hpw : (0 :: pts).Pairwise (· ≤ ·) := List.pairwise_cons.mpr ⟨fun _ _ => Nat.zero_le _, hinc⟩
+  have key := fun g1 g2 => splitLoop_findSome (splitOffPpf2 t) (fun a => a.lookup g1 g2)
+    (fun lo hi => t.lookupIn lo hi g1 g2)
+    (fun lo hi h => splitOffPpf2_lookup t hwf g1 g2 h)
+    (fun lo mid hi h1 h2 => by
+      rw [PairPos2.lookupIn_split t g1 g2 h1 h2]; cases t.lookupIn lo mid g1 g2 <;> rfl)
+    (fun lo => PairPos2.lookupIn_empty t g1 g2 lo) pts 0 hpw
+  obtain ⟨ts, a, b, _⟩ := key 0 0
+  refine ⟨ts, a, b, fun g1 g2 => ?_⟩
+  obtain ⟨ts', a', _, c'⟩ := key g1 g2
+  rw [a] at a'; cases a'
+  unfold firstMatch2
+  rw [c', hl, PairPos2.lookupIn_full]
+
+/-! ## MarkBasePos splitting -/
+
+/-- **markbase_split_preserves.**  Take ANY MarkBasePos subtable with a well-formed mark coverage
+table, one mark record per covered mark, base records with one optional anchor per mark class, and
+ANY non-decreasing list of split points ending with the mark class count.  `split_off_mark_pos`
+filters the mark coverage and the mark array by class range (re-numbering the classes from 0) and
+prunes every base record to that class range.  For EVERY (mark, base) pair the first-match lookup
+over the new subtables yields exactly the (mark anchor, base anchor) pair of the unsplit subtable,
+and nothing where the unsplit subtable had no anchor. -/
+theorem markbase_split_preserves {A : Type} (t : MarkBase A) (hwf : t.markCov.WF)
+    (hlen : t.marks.length = t.markCov.glyphs.length)
+    (hrows : ∀ row ∈ t.bases, row.length = t.classCount) (pts : List Nat)
+    (hinc : pts.Pairwise (· ≤ ·)) (hlast : pts.getLast? = some t.classCount) :
+    ∃ ts, splitMarkBaseGo t 0 pts = some ts ∧ ts.length = pts.length ∧
+      ∀ m b, firstMatchMB ts m b = t.lookup m b := by
+  have hl := lastOr_of_getLast? pts 0 _ hlast
+  have hpw : (0 :: pts).Pairwise (· ≤ ·) := List.pairwise_cons.mpr ⟨fun _ _ => Nat.zero_le _, hinc⟩
+  have key := fun m b => splitLoop_findSome (splitOffMarkBase t) (fun a => a.lookup m b)
+    (fun lo hi => t.lookupIn lo hi m b)
+    (fun lo hi h => splitOffMarkBase_lookup t hwf hlen m b h)
+    (fun lo mid hi h1 h2 => by
+      rw [MarkBase.lookupIn_split t m b h1 h2]; cases t.lookupIn lo mid m b <;> rfl)
+    (fun lo => MarkBase.lookupIn_empty t m b lo) pts 0 hpw
+  obtain ⟨ts, a, b, _⟩ := key 0 0
+  refine ⟨ts, a, b, fun m b' => ?_⟩
+  obtain ⟨ts', a', _, c'⟩ := key m b'
+  rw [a] at a'; cases a'
+  unfold firstMatchMB
+  rw [c', hl, MarkBase.lookupIn_full t (fun row hr => Nat.le_of_eq (hrows row hr))]
 
 /-! ## non-vacuity: the hypotheses are satisfiable and the functions compute -/
 
@@ -297,7 +341,7 @@ example : splitCoverage (.fmt1 [3, 5, 9, 11]) 1 3 = some (.fmt1 [5, 9]) := by de
 /-- a split that satisfies every hypothesis of `ppf1_split_preserves` -/
 example :
     let t : PairPos1 Nat := ⟨.fmt2 [⟨1, 4, 0⟩], [[(7, 70)], [(7, 71)], [(8, 72)], [(9, 73)]]⟩
-    (0 :: [1, 3, 4]).Pairwise (· < ·) ∧ [1, 3, 4].getLast? = some t.pairSets.length ∧
+    [1, 3, 4].Pairwise (· ≤ ·) ∧ [1, 3, 4].getLast? = some t.pairSets.length ∧
     (splitPpf1Go t 0 [1, 3, 4]).map (·.map (·.cov)) =
       some [.fmt2 [⟨1, 1, 0⟩], .fmt2 [⟨2, 3, 0⟩], .fmt2 [⟨4, 4, 0⟩]] ∧
     ((splitPpf1Go t 0 [1, 3, 4]).map (fun ts => firstMatch ts 3 8)) = some (some 72) := by
@@ -305,5 +349,32 @@ example :
 /-- the heuristic does produce split points (three 30 000-byte pair sets) -/
 example : ppf1SplitPoints 100 [(1, 30000), (2, 30000), (3, 30000)] = some [2, 3] := by decide
 example : ppf1SplitPoints 100 [(1, 30000), (2, 30000)] = none := by decide
+/-- a MarkBasePos split: marks 20,21,22 of classes 1,0,1; bases 5,6; split at class 1 -/
+def exMarkBase : MarkBase Nat :=
+  ⟨.fmt1 [20, 21, 22], .fmt1 [5, 6], 2, [(1, 201), (0, 210), (1, 221)],
+    [[some 50, some 51], [none, some 61]]⟩
+example : (splitMarkBaseGo exMarkBase 0 [1, 2]).map (·.map (·.markCov)) =
+    some [.fmt1 [21], .fmt1 [20, 22]] := by decide +kernel
+example : (splitMarkBaseGo exMarkBase 0 [1, 2]).map (·.map (·.marks)) =
+    some [[(0, 210)], [(0, 201), (0, 221)]] := by decide +kernel
+example : (splitMarkBaseGo exMarkBase 0 [1, 2]).map (·.map (·.bases)) =
+    some [[[some 50], [none]], [[some 51], [some 61]]] := by decide +kernel
+example : (splitMarkBaseGo exMarkBase 0 [1, 2]).map (fun ts => firstMatchMB ts 22 6) =
+    some (some (221, 61)) := by decide +kernel
+example : (splitMarkBaseGo exMarkBase 0 [1, 2]).map (fun ts => firstMatchMB ts 21 6) =
+    some none := by decide +kernel
+/-- a PairPos format 2 split: glyphs 1..4 with classes 0,1,1,2; rows split at class 1 -/
+example :
+    let t : PairPos2 Nat := ⟨.fmt1 [1, 2, 3, 4], .fmt2 [⟨2, 3, 1⟩, ⟨4, 4, 2⟩], .fmt2 [⟨7, 7, 1⟩],
+      [[0, 10], [0, 11], [0, 12]]⟩
+    (splitPpf2Go t 0 [1, 3]).map (·.map (fun s => (s.cov, s.classDef1, s.rows))) =
+      some [(.fmt1 [1], .fmt2 [], [[0, 10]]),
+            (.fmt1 [2, 3, 4], .fmt1 4 [1], [[0, 11], [0, 12]])] := by
+  decide +kernel
+/-- a first pair set above 64 KiB makes the heuristic emit the split point 0 … -/
+example : ppf1SplitPoints 10 [(1, 65602), (2, 65602), (3, 22)] = some [0, 1, 2, 3] := by decide
+/-- … and the empty range is split off without a trap in both formats -/
+example : splitCoverage (.fmt2 [⟨10, 16, 0⟩]) 0 0 = some (.fmt2 []) ∧
+    splitCoverage (.fmt1 [10, 12]) 0 0 = some (.fmt1 []) := by decide
 
 end FontVerif.C16
